@@ -36,7 +36,7 @@ ASSUMPTIONS = [
     'the last worker of the pool is never faulted and the retry budget is not exhausted; if the library nevertheless reports all workers timed out although the transport saw that worker healthy, the case is inconclusive (load), never a violation',
     'non-retriable application errors must surface as an exception whose text names the failing task',
 ]
-REQUIRED = ['as_completed_cases', 'run_cases', 'sharded_cases', 'faults_hit',
+REQUIRED = ['as_completed_cases', 'run_cases', 'sharded_cases', 'late_death_cases', 'faults_hit',
             'tasks_delivered', 'fault_free_cases', 'app_error_cases', 'release_checks']
 CHUNK_TIMEOUT_S = {'quick': 500, 'thorough': 3400}
 FAULT_KINDS = ['lost_request', 'lost_reply', 'slow', 'die_before', 'die_after']
@@ -248,17 +248,75 @@ def run_sharded(ctx, runner, case):
     runner.cwork.stop_servers(servers, join_s=0.5)
 
 
+def run_sharded_late_death(ctx, runner, case):
+  """A worker dies after it completed its shard but before the (suspended)
+  driver loop collects the finished task: the consumer pauses longer than the
+  heartbeat threshold after the first batch, the worker is killed meanwhile."""
+  import threading
+  from vlib import c16lib
+  from ml_metrics._src.chainables import orchestrate
+  W = case['W']
+  servers, addrs, raw, pool = runner.make_pool(W, 1, case['ibs'])
+  raw_list = [raw[a] for a in addrs]
+  spec = {'n': case['n'], 'rec': case['rec'], 'ops': [['affine', {'a': 3, 'b': 1}]],
+          'agg': 'sum', 'fused': True, 'num_threads': 0}
+  try:
+    pool.wait_until_alive(deadline_secs=HB_THRESHOLD, minimum_num_workers=W)
+    rq = queue.SimpleQueue()
+    outs = []
+    killed = []
+
+    def killer():
+      time.sleep(0.6)   # every shard has long finished (they run ahead of the consumer)
+      runner.courier.sim.kill(raw_list[case['victim']])
+      killed.append(time.time())
+
+    def go():
+      it = orchestrate.sharded_pipelines_as_iterator(
+          pool, c16lib.define_pipeline, spec, num_shards=W, result_queue=rq)
+      first = True
+      for b in it:
+        outs.append(b)
+        if first:
+          first = False
+          threading.Thread(target=killer, daemon=True).start()
+          time.sleep(HB_THRESHOLD / SCALE * 1.4)   # the victim's heartbeat goes stale
+
+    finished, _, exc = runner.cwork.run_with_watchdog(go, 120)
+    aggs = []
+    if finished and exc is None:
+      try:
+        aggs.append(rq.get(timeout=20))
+      except queue.Empty:
+        pass
+      time.sleep(0.02)
+      while not rq.empty():
+        aggs.append(rq.get_nowait())
+    ref_outs, ref_agg = c16lib.reference(spec)
+    return {'finished': finished, 'exc': exc, 'outs': outs, 'aggs': aggs,
+            'ref_outs': ref_outs, 'ref_agg': ref_agg,
+            'hits': [(raw_list[case['victim']], 'killed-after-shard-done', -1, 'late_death')] if killed else [],
+            'acquired': len(pool.acquired_workers),
+            'locked': sum(1 for w in pool.all_workers if w.is_locked()),
+            'last_healthy': True}
+  finally:
+    runner.cwork.stop_servers(servers, join_s=0.5)
+
+
 def _fault_sig(case):
+  if case['driver'] == 'sharded_late_death':
+    return 'late_death'
   return '+'.join(sorted({f[2] for f in case['faults']})) or 'none'
 
 
 def judge(ctx, case, res):
   driver = case['driver']
   ctx.count({'as_completed': 'as_completed_cases', 'run': 'run_cases',
-             'sharded': 'sharded_cases'}[driver])
+             'sharded': 'sharded_cases',
+             'sharded_late_death': 'late_death_cases'}[driver])
   hit = len(res['hits'])
   ctx.count('faults_hit', hit)
-  if not case['faults'] and case.get('app_error') is None:
+  if not case.get('faults') and case.get('app_error') is None and driver != 'sharded_late_death':
     ctx.count('fault_free_cases')
   ctx.case((driver, {k: v for k, v in case.items()}), hit >= 1)
   sig = _fault_sig(case)
@@ -329,6 +387,10 @@ def judge(ctx, case, res):
       if hit == 0 and sorted(got) != want:
         ctx.violation('fault_free_duplicates', case, {'n_got': len(got), 'n_want': len(want)},
                       mechanism='sharded:fault-free-duplicates')
+      if driver == 'sharded_late_death' and sorted(got) != want:
+        # every shard had completed before the death: nothing may be re-run
+        ctx.violation('completed_shard_rerun', case, {'n_got': len(got), 'n_want': len(want)},
+                      mechanism='sharded:completed-shard-rerun-after-late-death')
       from ml_metrics._src.chainables import transform
       finals = [a for a in res['aggs'] if isinstance(a, transform.AggregateResult)]
       if len(finals) != 1:
@@ -355,6 +417,8 @@ def run_one(ctx, runner, case):
     res = run_as_completed(ctx, runner, case)
   elif case['driver'] == 'run':
     res = run_pool_run(ctx, runner, case)
+  elif case['driver'] == 'sharded_late_death':
+    res = run_sharded_late_death(ctx, runner, case)
   else:
     res = run_sharded(ctx, runner, case)
   judge(ctx, case, res)
@@ -368,6 +432,11 @@ def run_chunk(ctx, spec):
     # the enumerated sub-space is spread over seeds in the quick tier
     cases = [c for i, c in enumerate(cases) if (i + spec['rseed']) % 3 == 0]
   cases += gen_cases(rng, spec['per_chunk'])
+  for _ in range(1 if spec['tier'] == 'quick' else 6):
+    W = rng.randint(2, 3)
+    cases.append({'driver': 'sharded_late_death', 'W': W, 'par': 1, 'faults': [],
+                  'victim': rng.randrange(W - 1), 'n': rng.choice([6, 12, 20]),
+                  'rec': rng.randint(1, 3), 'ibs': rng.randint(1, 3)})
   for case in cases:
     run_one(ctx, runner, case)
   ctx.notes['scale'] = SCALE
